@@ -468,6 +468,7 @@ def _judge(args):
     from sa.check import run_property
 
     edits = []
+    patch_file = None
     for file, old, new, count, special in edits_spec:
         if special == "unparse":
             edits.append((file, lambda t: ast.unparse(ast.parse(t)) + "\n"))
@@ -491,10 +492,19 @@ def _judge(args):
             edits.append((file, loops_to_all))
         elif special == "comploop":
             edits.append((file, comprehension_to_loop))
+        elif special == "patch":
+            patch_file = os.path.join(HERE, "variant_patches", new)
         else:
             edits.append((file, (lambda o, n, c: (lambda t: apply_edit(t, o, n, c)))(old, new, count)))
     try:
         root = make_root(src_root, edits)
+        if root is not None and patch_file is not None:
+            import subprocess
+
+            r = subprocess.run(["patch", "-p1", "-s", "-d", root, "-i", patch_file], capture_output=True, text=True)
+            if r.returncode != 0:
+                shutil.rmtree(root, ignore_errors=True)
+                root = None
     except SyntaxError as exc:
         return vid, prop, "broken-variant", f"variant does not compile: {exc}"
     if root is None:
@@ -583,7 +593,7 @@ def run(prop: str, seed: int, root: str, coverage_out: dict, jobs: int = 16, onl
     rnd.shuffle(vs)
     tasks = []
     for v in vs:
-        special = {"<unparse>": "unparse", "<rename-locals>": "rename", "<flip-comparisons>": "flip", "<invert-ifelse>": "invert", "<hoist-conditions>": "hoist", "<extract-helpers>": "extract", "<expand-augassign>": "augexp", "<len-as-condition>": "lencond", "<fstring-to-concat>": "fconcat", "<loops-to-all>": "toall", "<comprehension-to-loop>": "comploop"}.get(v.old)
+        special = {"<unparse>": "unparse", "<rename-locals>": "rename", "<flip-comparisons>": "flip", "<invert-ifelse>": "invert", "<hoist-conditions>": "hoist", "<extract-helpers>": "extract", "<expand-augassign>": "augexp", "<len-as-condition>": "lencond", "<fstring-to-concat>": "fconcat", "<loops-to-all>": "toall", "<comprehension-to-loop>": "comploop", "<patch>": "patch"}.get(v.old)
         files = v.file.split(",") if special else [v.file]
         tasks.append((v.vid, v.kind, prop, v.rules, root, [(f, v.old, v.new, v.count, special) for f in files] + [(f2, o2, n2, 1, None) for f2, o2, n2 in v.extra]))
     results = []
